@@ -122,6 +122,10 @@ def raw_features(maps, n0, nsamp, seed):
     # density-coupled rows get physically consistent magnitudes (sigma ~ rho^(8/3), tau ~ rho^(5/3));
     # rows that an exponential-type map (V4, E) also reads keep O(1) magnitudes (their domain)
     noscale = set(i for m in maps if m["code"] in ("V4", "E") for i in m["idx"].values())
+    for i in noscale:
+        # ... also when another map uses the same row as its density (log-uniform up to 50): exp(gamma * 50) overflows
+        # (thorough tier, seed 2: V4 with gamma = 20 on a row that SLX reads as the density)
+        x[i] = np.sign(x[i]) * np.minimum(np.abs(x[i]), 3.0)
     scaled = set()      # a row shared by several density-coupled maps is rescaled once, not once per map
 
     def _scale(j, fac):
